@@ -16,6 +16,17 @@
 //     scheme, or returns nil for one (directly, after redirects, under LBClient),
 //   - a Client call failing with ErrHostClientRedirectToDifferentScheme (only
 //     possible if it routed the request to the HostClient of the other scheme).
+//
+// The same rules are applied to EVERY transmission of one call: the peer can
+// drop the first attempts without answering (or kill a pooled connection), and
+// the retry callback (RetryIf / RetryIfErr / RetryIfErrUpstream) then edits the
+// live request: it switches the scheme, or touches the URI accessors and sets a
+// relative request URI so the URI is re-parsed from Host + path without a
+// scheme. The callback keeps the path marker in step with what it did, so the
+// peer still knows the scheme of the URL each attempt was made for. Requests
+// without an explicit scheme (Host header + path, "//host/path", "://host/path";
+// marker "none", which fasthttp treats as http) must stay off TLS connections
+// and must be refused by a HostClient{IsTLS: true}.
 package c21
 
 import (
@@ -79,6 +90,8 @@ type reqLog struct {
 	Host       string `json:"host_header"`
 	WantScheme string `json:"url_scheme"`
 	WantHost   string `json:"url_host"`
+	Attempt    int    `json:"attempt"` // n-th time the peer sees this id.hop
+	Dropped    bool   `json:"dropped_without_answer,omitempty"`
 }
 
 type connLog struct {
@@ -103,6 +116,9 @@ type tnet struct {
 	mu     sync.Mutex
 	conns  []*connLog
 	chains map[string][]chainHop
+	ops    map[string]*op // fault and callback plans, by request id
+	seenN  map[string]int // receptions per id.hop
+	cbKind string
 	wg     sync.WaitGroup
 }
 
@@ -166,6 +182,7 @@ func (n *tnet) serve(cl *connLog, s net.Conn) {
 		}
 		seg := strings.Split(path, "/")
 		resp := "HTTP/1.1 200 OK\r\nContent-Length: 2\r\n\r\nok"
+		closeAfter := false
 		if len(seg) == 5 && seg[1] == "c21" {
 			if j := strings.LastIndexByte(seg[2], '.'); j > 0 {
 				rl.ID = seg[2][:j]
@@ -174,7 +191,19 @@ func (n *tnet) serve(cl *connLog, s net.Conn) {
 			rl.WantScheme, rl.WantHost = seg[3], seg[4]
 			n.mu.Lock()
 			chain := n.chains[rl.ID]
+			n.seenN[seg[2]]++
+			rl.Attempt = n.seenN[seg[2]]
+			plan := n.ops[rl.ID]
 			n.mu.Unlock()
+			if plan != nil && rl.Hop == 0 {
+				if rl.Attempt <= plan.DropFirst {
+					// retryable fault: the peer goes away without a single response byte
+					rl.Dropped = true
+					cl.Reqs = append(cl.Reqs, rl)
+					return
+				}
+				closeAfter = plan.CloseAfter
+			}
 			if rl.Hop >= 0 && rl.Hop < len(chain) {
 				hp := chain[rl.Hop]
 				var loc string
@@ -193,7 +222,49 @@ func (n *tnet) serve(cl *connLog, s net.Conn) {
 		if _, err := w.Write([]byte(resp)); err != nil {
 			return
 		}
+		if closeAfter {
+			// answered as keep-alive, then closed: the client is left with a dead pooled connection
+			return
+		}
 	}
+}
+
+// onRetry is the body of the case's retry callback: user code that gets the live request
+// between two attempts of one HostClient.Do.
+func (n *tnet) onRetry(req *fasthttp.Request) bool {
+	id := string(req.Header.Peek("X-Req-Id"))
+	n.mu.Lock()
+	o := n.ops[id]
+	if o != nil {
+		o.CBCalls++
+	}
+	n.mu.Unlock()
+	if o == nil {
+		return true
+	}
+	switch o.Mut {
+	case "":
+		return true
+	case "set-https", "set-http":
+		req.URI().SetScheme(strings.TrimPrefix(o.Mut, "set-"))
+	case "reparse-relative":
+		_ = req.RequestURI()
+		_ = req.URI().String()
+		req.SetRequestURI(target(o.ID, 0, "none", o.Host)) // relative: re-parsed from Host + path, no scheme
+	case "accessors-only":
+		// looks read-only, but Request.RequestURI() writes the path back into the header and
+		// un-parses the URI: the next URI() is built from Host + path, without the scheme
+		_ = req.RequestURI()
+		_ = req.URI().FullURI()
+	}
+	// What the callback leaves behind is what the request's own URI now says; the path marker
+	// follows it, so the peer knows the scheme of the URL the next attempt is made for.
+	left := string(req.URI().Scheme())
+	req.URI().SetPath(target(o.ID, 0, left, o.Host))
+	n.mu.Lock()
+	o.Left = left
+	n.mu.Unlock()
+	return true
 }
 
 // ---------------------------------------------------------------------------
@@ -209,6 +280,13 @@ type op struct {
 	Max    int        `json:"max_redirects,omitempty"`
 	G      int        `json:"goroutine"`
 
+	Shape      string `json:"shape,omitempty"`       // "" absolute URL; host+path, scheme-rel (//host/path), colon-slash-slash (://host/path): no scheme
+	DropFirst  int    `json:"drop_first,omitempty"`  // the peer drops this many transmissions without answering
+	CloseAfter bool   `json:"close_after,omitempty"` // the peer closes the connection after answering (dead pooled conn for the next call)
+	Mut        string `json:"callback_edit,omitempty"`
+	CBCalls    int    `json:"callback_calls"`
+	Left       string `json:"scheme_left_by_callback,omitempty"` // req.URI().Scheme() at the end of the last callback
+
 	Err string `json:"err"`
 	err error
 }
@@ -219,7 +297,8 @@ type hcSpec struct {
 }
 
 type tcase struct {
-	Mode string   `json:"mode"` // client, hostclient, lbclient
+	Mode string   `json:"mode"`           // client, hostclient, lbclient
+	CB   string   `json:"retry_callback"` // RetryIf, RetryIfErr, RetryIfErrUpstream
 	HCs  []hcSpec `json:"host_clients,omitempty"`
 	G    int      `json:"goroutines"`
 	Ops  []*op    `json:"ops"`
@@ -263,6 +342,20 @@ func genOp(r rng, id string, hosts []string, redirectAPIs bool) *op {
 	case "Get", "Post":
 		o.Chain = genChain(r, r.Intn(4))
 		o.Method = strings.ToUpper(o.API)
+	default:
+		// direct calls: request shapes without a scheme, faults on the first attempts, callback edits
+		if r.Intn(4) == 0 {
+			o.Shape = pick(r, []string{"host+path", "host+path", "scheme-rel", "colon-slash-slash"})
+			o.Scheme = "none"
+		}
+		if r.Intn(3) == 0 {
+			o.DropFirst = 1 + r.Intn(2)
+			o.Mut = pick(r, []string{"set-https", "set-http", "reparse-relative", "reparse-relative", "accessors-only", ""})
+		}
+		o.CloseAfter = r.Intn(8) == 0
+		if o.DropFirst == 0 && r.Intn(6) == 0 {
+			o.Mut = pick(r, []string{"set-https", "set-http", "reparse-relative"}) // only runs if a dead pooled conn makes the call retry
+		}
 	}
 	return o
 }
@@ -270,6 +363,7 @@ func genOp(r rng, id string, hosts []string, redirectAPIs bool) *op {
 func genCase(r rng, idx int) *tcase {
 	c := &tcase{Mode: pick(r, []string{"client", "client", "hostclient", "hostclient", "lbclient"})}
 	c.G = pick(r, []int{1, 1, 2, 3})
+	c.CB = pick(r, []string{"RetryIf", "RetryIfErr", "RetryIfErrUpstream"})
 	nops := 4 + r.Intn(10)
 	hosts := hostForms
 	switch c.Mode {
@@ -295,6 +389,9 @@ func genCase(r rng, idx int) *tcase {
 		o.G = r.Intn(c.G)
 		if c.Mode == "lbclient" {
 			o.API = pick(r, []string{"Do", "DoTimeout", "DoDeadline"})
+		}
+		if o.Shape != "" && o.Mut == "reparse-relative" && o.DropFirst == 0 {
+			o.Mut = ""
 		}
 		c.Ops = append(c.Ops, o)
 	}
@@ -337,7 +434,17 @@ func runOp(d doer, o *op) {
 	default:
 		req := fasthttp.AcquireRequest()
 		resp := fasthttp.AcquireResponse()
-		req.SetRequestURI(url)
+		switch o.Shape {
+		case "host+path":
+			req.Header.SetHost(o.Host)
+			req.SetRequestURI(target(o.ID, 0, "none", o.Host))
+		case "scheme-rel":
+			req.SetRequestURI("//" + o.Host + target(o.ID, 0, "none", o.Host))
+		case "colon-slash-slash":
+			req.SetRequestURI("://" + o.Host + target(o.ID, 0, "none", o.Host))
+		default:
+			req.SetRequestURI(url)
+		}
 		req.Header.SetMethod(o.Method)
 		req.Header.Set("X-Req-Id", o.ID)
 		if o.Method != "GET" {
@@ -369,9 +476,21 @@ type outcome struct {
 }
 
 func runCase(c *tcase, srvCfg *tls.Config) (out outcome) {
-	n := &tnet{srvCfg: srvCfg, chains: map[string][]chainHop{}}
+	n := &tnet{srvCfg: srvCfg, chains: map[string][]chainHop{}, ops: map[string]*op{}, seenN: map[string]int{}}
 	for _, o := range c.Ops {
 		n.chains[o.ID] = o.Chain
+		n.ops[o.ID] = o
+	}
+	var retryIf fasthttp.RetryIfFunc
+	var retryIfErr fasthttp.RetryIfErrFunc
+	var retryUp fasthttp.RetryIfErrUpstreamFunc
+	switch c.CB {
+	case "RetryIf":
+		retryIf = func(req *fasthttp.Request) bool { return n.onRetry(req) }
+	case "RetryIfErr":
+		retryIfErr = func(req *fasthttp.Request, _ int, _ error) (bool, bool) { return false, n.onRetry(req) }
+	default:
+		retryUp = func(req *fasthttp.Request, _ int, _ error, _ string) (bool, bool) { return false, n.onRetry(req) }
 	}
 	cliCfg := &tls.Config{InsecureSkipVerify: true}
 	const idle = 50 * time.Millisecond
@@ -379,14 +498,15 @@ func runCase(c *tcase, srvCfg *tls.Config) (out outcome) {
 	var closers []func()
 	switch c.Mode {
 	case "client":
-		cl := &fasthttp.Client{Dial: n.dial, TLSConfig: cliCfg, MaxIdleConnDuration: idle, ReadBufferSize: 2048, WriteBufferSize: 2048}
+		cl := &fasthttp.Client{Dial: n.dial, TLSConfig: cliCfg, MaxIdleConnDuration: idle, ReadBufferSize: 2048, WriteBufferSize: 2048,
+			RetryIf: retryIf, RetryIfErr: retryIfErr, RetryIfErrUpstream: retryUp}
 		d = cl
 		closers = append(closers, cl.CloseIdleConnections)
 	default:
 		var hcs []*fasthttp.HostClient
 		for _, s := range c.HCs {
 			hc := &fasthttp.HostClient{Addr: s.Addr, IsTLS: s.IsTLS, Dial: n.dial, TLSConfig: cliCfg, MaxIdleConnDuration: idle,
-				ReadBufferSize: 2048, WriteBufferSize: 2048}
+				ReadBufferSize: 2048, WriteBufferSize: 2048, RetryIf: retryIf, RetryIfErr: retryIfErr, RetryIfErrUpstream: retryUp}
 			hcs = append(hcs, hc)
 			closers = append(closers, hc.CloseIdleConnections)
 		}
@@ -477,6 +597,18 @@ func judge(c *tcase, out outcome, ev func(string, int)) (vs []violation) {
 		hop int
 	}
 	seenAt := map[key]bool{}
+	firstTLS := map[string]bool{} // conn type of the first transmission of id.0
+	resent := map[string]bool{}
+	for _, cl := range out.Conns {
+		for _, rq := range cl.Reqs {
+			if rq.Hop == 0 && rq.Attempt == 1 {
+				firstTLS[rq.ID] = cl.TLS
+			}
+			if rq.Hop == 0 && rq.Attempt >= 2 {
+				resent[rq.ID] = true
+			}
+		}
+	}
 	for _, cl := range out.Conns {
 		if cl.TLS {
 			ev("tls_sessions", 1)
@@ -500,11 +632,24 @@ func judge(c *tcase, out outcome, ev func(string, int)) (vs []violation) {
 			}
 			seenAt[key{rq.ID, rq.Hop}] = true
 			where := fmt.Sprintf("request %s.%d (%s %s, Host %q) on the connection dialled to %q (first raw bytes %s, tls=%v)", rq.ID, rq.Hop, rq.Method, rq.Target, rq.Host, cl.Dial, cl.First, cl.TLS)
+			// a transmission made after the retry callback edited the request gets its own key
+			onRetry := ""
+			if rq.Attempt >= 2 && o.Mut != "" {
+				onRetry = "-after-retry-callback"
+				where += fmt.Sprintf(" [attempt %d, callback edit %s]", rq.Attempt, o.Mut)
+			}
+			if rq.Attempt >= 2 {
+				ev("retransmissions_seen", 1)
+			}
 			switch {
 			case rq.WantScheme == "https" && !cl.TLS:
-				vs = append(vs, violation{"https-request-in-plaintext:" + c.Mode, "URL scheme https, sent outside TLS: " + where})
+				vs = append(vs, violation{"https-request-in-plaintext" + onRetry + ":" + c.Mode, "URL scheme https, sent outside TLS: " + where})
 			case rq.WantScheme == "http" && cl.TLS:
-				vs = append(vs, violation{"http-request-inside-tls:" + c.Mode, "URL scheme http, sent inside a TLS session: " + where})
+				vs = append(vs, violation{"http-request-inside-tls" + onRetry + ":" + c.Mode, "URL scheme http, sent inside a TLS session: " + where})
+			case rq.WantScheme == "none" && cl.TLS:
+				vs = append(vs, violation{"schemeless-request-inside-tls" + onRetry + ":" + c.Mode, "request without a URL scheme (= http), sent inside a TLS session: " + where})
+			case rq.WantScheme == "none":
+				ev("schemeless_requests_seen_in_plaintext", 1)
 			case cl.TLS:
 				ev("https_requests_seen_inside_tls", 1)
 			default:
@@ -546,9 +691,39 @@ func judge(c *tcase, out outcome, ev func(string, int)) (vs []violation) {
 	}
 	for _, o := range c.Ops {
 		es := effSchemes(o)
+		edited := o.CBCalls > 0 && o.Mut != "" && o.Left != ""
+		if o.CBCalls > 0 {
+			ev("retry_callback_invocations", o.CBCalls)
+		}
+		if edited {
+			// Which kind of HostClient executes the call: told by its first transmission, else by the setup.
+			t1, known := firstTLS[o.ID]
+			if !known {
+				switch c.Mode {
+				case "hostclient":
+					t1, known = c.HCs[0].IsTLS, true
+				case "client":
+					t1, known = o.Scheme == "https", true
+				}
+			}
+			if known {
+				if (o.Left == "https") != t1 {
+					if o.err == nil {
+						vs = append(vs, violation{"retry-callback-scheme-change-accepted:" + c.Mode, fmt.Sprintf("%s(%s): the retry callback (%s) left the request with the scheme the executing HostClient{IsTLS:%v} is not configured for (edit %s, scheme left: %s), yet the call returned nil", o.API, o.ID, c.CB, t1, o.Mut, o.Left)})
+					} else {
+						ev("retry_scheme_mismatch_refused", 1)
+					}
+				} else if resent[o.ID] {
+					ev("retry_after_callback_edit_transmitted", 1)
+				}
+			}
+		}
+		if o.Scheme == "none" {
+			ev("schemeless_calls", 1)
+		}
 		switch c.Mode {
 		case "client":
-			if errors.Is(o.err, fasthttp.ErrHostClientRedirectToDifferentScheme) {
+			if errors.Is(o.err, fasthttp.ErrHostClientRedirectToDifferentScheme) && !edited {
 				vs = append(vs, violation{"client-routed-request-to-hostclient-of-other-scheme", fmt.Sprintf("Client.%s(%s://%s …) returned %q", o.API, o.Scheme, o.Host, o.Err)})
 			}
 			if o.err == nil {
@@ -574,6 +749,9 @@ func judge(c *tcase, out outcome, ev func(string, int)) (vs []violation) {
 				vs = append(vs, violation{"hostclient-accepted-mismatching-scheme", fmt.Sprintf("HostClient{IsTLS:%v}.%s returned nil although URL #%d of the chain has scheme %s", hcTLS, o.API, m, es[m])})
 			}
 			if o.err != nil && reached {
+				if m == 0 && o.Scheme == "none" {
+					ev("schemeless_refused_by_tls_hostclient", 1)
+				}
 				if m == 0 {
 					ev("hostclient_refused_mismatching_scheme", 1)
 				} else {
@@ -607,7 +785,7 @@ func classOf(c *tcase) string {
 		if i == 6 {
 			break
 		}
-		fmt.Fprintf(&b, "|%s %s %v", o.API, o.Host, effSchemes(o))
+		fmt.Fprintf(&b, "|%s %s %v %s d%d %s", o.API, o.Host, effSchemes(o), o.Shape, o.DropFirst, o.Mut)
 	}
 	return b.String()
 }
@@ -639,6 +817,9 @@ func nontrivial(c *tcase) bool {
 		return false
 	default:
 		for _, o := range c.Ops {
+			if o.DropFirst > 0 && o.Mut != "" {
+				return true
+			}
 			for _, s := range effSchemes(o) {
 				for _, h := range c.HCs {
 					if (s == "https") != h.IsTLS {
@@ -675,10 +856,11 @@ func TestC21(t *testing.T) {
 	}
 	srvCfg := &tls.Config{Certificates: []tls.Certificate{cert}, MinVersion: tls.VersionTLS12, SessionTicketsDisabled: true}
 
-	r.Rule("case = one Client, one HostClient{IsTLS random} or one LBClient over 2-3 HostClients with both IsTLS values, and 4-13 calls spread over 1-3 goroutines; each call picks a scheme (http/https) and a host form (a.test, b.test, a.test:9000, b.test:9000 - the explicit port is dialled for both schemes), an API (Do, DoTimeout, DoDeadline, DoRedirects, Get, Post) and, for the redirect APIs, a chain of 0-4 hops (301/302/303/307/308; absolute, scheme-relative or path Location) whose scheme and host vary per hop; distinct = (mode, goroutines, HostClient specs, first six calls as api+host+scheme sequence); non-trivial = (Client) one host name is used with both schemes, (HostClient/LBClient) some URL has the scheme the HostClient is not configured for")
+	r.Rule("case = one Client, one HostClient{IsTLS random} or one LBClient over 2-3 HostClients with both IsTLS values, and 4-13 calls spread over 1-3 goroutines; each call picks a scheme (http/https) and a host form (a.test, b.test, a.test:9000, b.test:9000 - the explicit port is dialled for both schemes), an API (Do, DoTimeout, DoDeadline, DoRedirects, Get, Post) and, for the redirect APIs, a chain of 0-4 hops (301/302/303/307/308; absolute, scheme-relative or path Location) whose scheme and host vary per hop; direct calls additionally draw a request shape without scheme (Host+path, //host/path, ://host/path), a peer fault (first 1-2 transmissions dropped without an answer, connection closed after the answer = dead pooled connection) and an edit made by the case's retry callback (RetryIf, RetryIfErr or RetryIfErrUpstream) on the live request between attempts (SetScheme https/http, accessors + relative SetRequestURI, accessors only - Request.RequestURI() alone already drops the scheme); distinct = (mode, goroutines, HostClient specs, first six calls as api+host+scheme sequence); non-trivial = (Client) one host name is used with both schemes, (HostClient/LBClient) some URL has the scheme the HostClient is not configured for")
 	r.Assume("the scheme of a request is the scheme of the URL the caller or the redirecting peer wrote; it travels in the request path and is read back by the raw peer")
 	r.Assume("TLS is recognised on the raw connection by the record header 0x16 0x03 of the first bytes; the handshake is then completed by crypto/tls with a self-signed certificate (client: InsecureSkipVerify)")
-	r.Assume("requests given to a HostClient as a bare path (no scheme) are not generated: the property speaks about URL schemes")
+	r.Assume("a request without an explicit scheme (Host header + path, //host/path, ://host/path; marker 'none') is an http request, as URI.Scheme() says: it must stay off TLS connections and a HostClient{IsTLS:true} must refuse it")
+	r.Assume("the retry callback edits the live request between attempts and rewrites the path marker to the scheme it leaves behind, so every transmission is judged against the URL it was made for; when the first transmission never reached a peer (dead pooled connection) the executing HostClient's kind is taken from the setup, and under LBClient such calls are not judged for acceptance")
 	n := r.N(4_000, 250_000)
 	const block = 32
 	blocks := (n + block - 1) / block
@@ -725,5 +907,10 @@ func TestC21(t *testing.T) {
 		r.Require("hostclient_refused_redirect_to_other_scheme", n/50)
 		r.Require("lbclient_refused_by_mismatching_hostclient", n/50)
 		r.Require("lbclient_delivered", n/50)
+		r.Require("retry_callback_invocations", n/4)
+		r.Require("retry_scheme_mismatch_refused", n/20)
+		r.Require("retry_after_callback_edit_transmitted", n/20)
+		r.Require("schemeless_refused_by_tls_hostclient", n/20)
+		r.Require("schemeless_requests_seen_in_plaintext", n/10)
 	}
 }
